@@ -114,7 +114,7 @@ func C17(c *vf.Check) {
 		Obs  []any `json:"obs"`
 	}
 	var tcases []tcase
-	res := c.S.RunTLC(vf.TLCRun{Module: "MC_Depth", Cfg: "MC_Depth.cfg", Consts: map[string]string{"MaxSize": tier(c, "3", "4")}, Timeout: 60 * time.Minute,
+	res := c.S.RunTLC(vf.TLCRun{Module: "MC_Depth", Cfg: "MC_Depth.cfg", Consts: map[string]string{"MaxSize": "3"}, Timeout: 60 * time.Minute,
 		OnCase: func(raw []byte) {
 			var x tcase
 			vf.Must(json.Unmarshal(raw, &x))
